@@ -3,7 +3,7 @@
 // Contracts for package generator, checked by /verif/govc (comment-only; compiled only with -tags verif).
 package generator
 
-//@ prelude c13
+//@ prelude c13 c07
 
 // ---- text is data (C13) -------------------------------------------------------------------------------------
 
@@ -27,3 +27,11 @@ package generator
 
 //@ func regexLiteral(pattern string) string
 //@   ensures [C13:raw-or-quoted] (contains(pattern, "`") ==> result == jsonQuote(pattern)) && (!contains(pattern, "`") ==> result == "`" + pattern + "`")
+
+// ---- invented names (C07) -----------------------------------------------------------------------------------
+
+//@ func packageName(profile profile.Profile) string
+//@   ensures [C07:package-name] result == "profile_" + reReplaceAll(reCompile("[^a-zA-Z0-9]+"), strToLower(profile.Name), "_")
+
+//@ func pkg(profile profile.Profile) string
+//@   ensures [C07:package-line] result == "package profile_" + reReplaceAll(reCompile("[^a-zA-Z0-9]+"), strToLower(profile.Name), "_") + "\n"
